@@ -41,12 +41,26 @@ import (
 type NetCase struct {
 	Peers []string `json:"peers"`
 	How   string   `json:"how"` // stop | cancel
+	// Mode: "" a plain system with remoting | no-port (an advertised address without a port: Start fails before the
+	// root actor exists) | port-in-use (the bind address is taken: the listener cannot come up) | cluster-seed (a
+	// self-seeded cluster node, Up) | cluster-joining (a cluster node whose only seed is unreachable: still joining)
+	Mode string `json:"mode,omitempty"`
+	// StopMs: the timeout given to Stop (0 = the configured 8 s). A short one on a node that is busy joining may
+	// end in the stop-failed error - but at the timeout, not later
+	StopMs int `json:"stopMs,omitempty"`
 }
 
 func (c NetCase) JSON() string { b, _ := json.Marshal(c); return string(b) }
 
 func genNetCase(rt *rapid.T) NetCase {
 	c := NetCase{How: rapid.SampledFrom([]string{"stop", "stop", "cancel"}).Draw(rt, "how")}
+	c.Mode = rapid.SampledFrom([]string{"cluster-joining", "no-port", "cluster-seed", "port-in-use", "", "", "", ""}).Draw(rt, "mode")
+	if c.Mode == "no-port" || c.Mode == "port-in-use" {
+		return c
+	}
+	if c.Mode == "cluster-joining" && c.How == "stop" && rapid.Bool().Draw(rt, "shortStop") {
+		c.StopMs = 1500
+	}
 	n := rapid.IntRange(0, 3).Draw(rt, "peers")
 	for i := 0; i < n; i++ {
 		c.Peers = append(c.Peers, rapid.SampledFrom([]string{"real", "out-silent", "out-silent", "in-silent", "in-silent", "out-closed", "unreachable", "tell-in-onkill"}).Draw(rt, "peer"))
@@ -147,9 +161,60 @@ func runNet(c NetCase) (v *verdict, inconclusive string, nontrivial bool, labels
 	userCtx, cancel := context.WithCancel(context.Background())
 	defer cancel()
 	bind := fmt.Sprintf("127.0.0.1:%d", rlab.FreePort())
-	sys := actor.NewSystem(vivid.WithActorSystemContext(userCtx), vivid.WithActorSystemLogger(hlog.Nop), vivid.WithActorSystemRemoting(bind, bind), vivid.WithActorSystemStopTimeout(8*time.Second))
-	if err := sys.Start(); err != nil {
-		return nil, "Start: " + err.Error(), false, nil
+	lab["mode:"+c.Mode] = true
+	opts := []vivid.ActorSystemOption{vivid.WithActorSystemContext(userCtx), vivid.WithActorSystemLogger(hlog.Nop), vivid.WithActorSystemStopTimeout(8 * time.Second)}
+	switch c.Mode {
+	case "no-port":
+		opts = append(opts, vivid.WithActorSystemRemoting("127.0.0.1"))
+	case "port-in-use":
+		taken, err := net.Listen("tcp", bind)
+		if err != nil {
+			return nil, "listen: " + err.Error(), false, nil
+		}
+		defer taken.Close()
+		opts = append(opts, vivid.WithActorSystemRemoting(bind, bind))
+	case "cluster-seed":
+		opts = append(opts, vivid.WithActorSystemRemoting(bind, bind), vivid.WithActorSystemRemotingOption(vivid.WithActorSystemRemotingClusterOption(vivid.WithClusterNodeID("n"), vivid.WithClusterSeeds([]string{bind}))))
+	case "cluster-joining":
+		// the join request to the unreachable seed fails at once (no reconnect attempts: the blocking retry loop is
+		// KF-C14-1's business) and the node then waits 5 s for an answer that cannot come
+		opts = append(opts, vivid.WithActorSystemRemoting(bind, bind), vivid.WithActorSystemRemotingOption(vivid.WithActorSystemRemotingReconnectLimit(0),
+			vivid.WithActorSystemRemotingClusterOption(vivid.WithClusterNodeID("n"), vivid.WithClusterSeeds([]string{"127.0.0.1:1"}), vivid.WithClusterJoinAskTimeout(5*time.Second))))
+	default:
+		opts = append(opts, vivid.WithActorSystemRemoting(bind, bind))
+	}
+	sys := actor.NewSystem(opts...)
+	startErr := sys.Start()
+	if c.Mode == "no-port" || c.Mode == "port-in-use" {
+		// a Start that cannot succeed: whatever it returns, the system must end up stopped or stoppable, every further
+		// call must answer promptly, and nothing of it may stay behind
+		nontrivial = true
+		t0 := time.Now()
+		err1 := sys.Stop()
+		err2 := sys.Start()
+		if d := time.Since(t0); d > 9*time.Second {
+			return &verdict{"C07/no-hang|after-failed-start", fmt.Sprintf("mode %s: Start returned %v; the following Stop (%v) and Start (%v) took %v", c.Mode, startErr, err1, err2, d.Round(time.Millisecond))}, "", true, []string{"mode:" + c.Mode}
+		}
+		if startErr == nil && err1 != nil {
+			return &verdict{"C07/stop-terminates|after-start", fmt.Sprintf("mode %s: Start returned nil, Stop returned %v", c.Mode, err1)}, "", true, []string{"mode:" + c.Mode}
+		}
+		// the creating context stays live (cancelling it would stop a scheduler that the failed Start left running)
+		var left []string
+		if !rlab.WaitUntil(15*time.Second, func() bool { vt.Progress(); left = libraryGoroutines(); return len(left) == 0 }) {
+			sort.Strings(left)
+			if len(left) > 3 {
+				left = left[:3]
+			}
+			return &verdict{"C07/no-goroutine-left|failed-start", fmt.Sprintf("mode %s: Start returned %v, Stop %v; 15 s later %d goroutines of the library remain, e.g.\n%s", c.Mode, startErr, err1, len(left), strings.Join(left, "\n\n"))}, "", true, []string{"mode:" + c.Mode}
+		}
+		vstat.Add("failed_starts", 1)
+		return nil, "", true, []string{"mode:" + c.Mode, fmt.Sprintf("start-returned-error:%v", startErr != nil)}
+	}
+	if startErr != nil {
+		return nil, "Start: " + startErr.Error(), false, nil
+	}
+	if c.Mode == "cluster-joining" {
+		time.Sleep(150 * time.Millisecond) // the first join attempt is under way or has failed
 	}
 	if !rlab.WaitUntil(5*time.Second, func() bool {
 		cn, err := net.DialTimeout("tcp", bind, 200*time.Millisecond)
@@ -225,7 +290,48 @@ func runNet(c NetCase) (v *verdict, inconclusive string, nontrivial bool, labels
 	t0 := time.Now()
 	var err error
 	if c.How == "stop" {
-		err = sys.Stop()
+		done := make(chan error, 1)
+		limit := 8 * time.Second
+		go func() {
+			if c.StopMs > 0 {
+				done <- sys.Stop(time.Duration(c.StopMs) * time.Millisecond)
+			} else {
+				done <- sys.Stop()
+			}
+		}()
+		if c.StopMs > 0 {
+			limit = time.Duration(c.StopMs) * time.Millisecond
+			lab["short-stop-timeout"] = true
+		}
+		select {
+		case err = <-done:
+			if d := time.Since(t0); d > limit+1500*time.Millisecond {
+				v = &verdict{"C07/stop-within-timeout|remoting", fmt.Sprintf("Stop with a timeout of %v returned %v after %v (mode %q, peers %v)", limit, err, d.Round(time.Millisecond), c.Mode, c.Peers)}
+				return
+			}
+			if err != nil && c.StopMs > 0 && errCode(err) == "StopFailed" {
+				// the node was busy joining for longer than the timeout: allowed; everything still has to go away
+				lab["short-stop-failed-at-its-timeout"] = true
+				err = nil
+				if !rlab.WaitUntil(15*time.Second, func() bool { vt.Progress(); return len(sys.VerifActors()) == 0 }) {
+					v = &verdict{"C07/stop-terminates|remoting", fmt.Sprintf("15 s after a Stop that failed at its timeout of %v, %d actors are still registered (mode %q)", limit, len(sys.VerifActors()), c.Mode)}
+					return
+				}
+			}
+		case <-time.After(14 * time.Second):
+			var where []string
+			for _, g := range libraryGoroutines() {
+				if strings.Contains(g, ".stop(") || strings.Contains(g, "Leave") || strings.Contains(g, "NodeActor") || strings.Contains(g, "Backoff") {
+					where = append(where, g)
+				}
+			}
+			if len(where) > 4 {
+				where = where[:4]
+			}
+			v = &verdict{"C07/no-hang|stop|remoting", fmt.Sprintf("Stop (timeout 8 s) of a system in mode %q with peers %v has not returned after 14 s; goroutines: %s", c.Mode, c.Peers, strings.Join(where, " ### "))}
+			return
+		}
+		vt.Progress()
 	} else {
 		cancel()
 		// the cancellation stops the system: a Stop call now either finds it stopped or performs the stop itself
